@@ -1,7 +1,45 @@
 (* C07 - copies are faithful to the source and independent of it.
-   Statements only; proofs are in theories/Mut/CopyFacts.v (on the mutation
-   machine theories/Mut/Machine.v, which harness/props/C07.py ties to the
-   implementation after every step of every generated history).
+   Statements only; proofs are in theories/Mut/Copy*.v (on the mutation machine
+   theories/Mut/Machine.v, which harness/props/C07.py ties to the implementation
+   after every step of every generated history).
+
+   WHAT IS DECIDED BY THEOREMS, AND WHAT ONLY BY THE HARNESS ORACLE.
+   The model is a pure value model: a world is a list of tree VALUES, a forest holds its child
+   lists and metadata by value.  Theorems decide:
+     * faithfulness: the new branch = the source branch up to identities ([strip_ids]; same data
+       objects, data_ids, kinds, order, shape), for every copy operation and every `before`;
+     * freshness: the new identities are next, next+1, ... ; in no tree of a reachable world before;
+     * where the copies go (one block, source order) and that the copy step leaves every existing
+       row of the target tree / the whole state of every other tree as it was;
+     * frame per tree: no operation writes a tree it does not work on; locality: none reads one
+       outside its footprint;
+     * inside one tree: operations that do not name clones and work outside a branch leave that
+       branch identical ([C07_same_tree_frame]).
+   In such a model "the source is untouched by the copy" and "a later change of one side does
+   not show on the other" hold BY CONSTRUCTION as far as they concern SHARED MUTABLE STRUCTURE
+   (one `_children` list or `_meta` dict or Node object reachable from both sides): sharing is
+   not representable, so the frame/independence theorems below only say that the machine writes
+   at the index it names - they carry no weight against aliasing in the implementation.  These
+   clauses are decided by the harness only, on every generated case (harness/mut_c07.py):
+     * `copy_oracle`: every copied node is a NEW object, `copy._children is not src._children`,
+       `copy._meta is not src._meta`, same data OBJECT (`is`); every node object that existed
+       before has the same data object, data_id, kind, meta dict (same object, same content),
+       parent, tree and the same children list OBJECT with the same elements in the same order
+       (the caller-visible order of the source) - also after a refused copy;
+     * `independence_oracle` (i): after EVERY later step every tree the operation does not work
+       on is pointer-identical (objects, payloads, meta dicts and contents, child lists);
+       (ii) same-tree copies: branch-local operations inside one branch leave the other untouched;
+     * the correspondence of the full observable state of every tree after every step.
+   SAME-TREE COPIES ARE CLONES.  A copy made inside the tree of its source has the data_id of
+   its source, i.e. it is a clone of it.  The English clause "later changes to either side are
+   never visible in the other" is therefore FALSE as written for such copies:
+   remove(with_clones=True) / set_data(with_clones=True) on one reaches the other
+   ([C07_same_tree_copy_is_a_clone]).  This is the library's documented clone semantics, not a
+   defect.  What is stated: (a) full independence across DIFFERENT trees, (b) inside one tree
+   the restricted form [C07_same_tree_frame].
+   Domain notes: copy_to(add_self=False) must be called with before=None (the library asserts it;
+   the model ignores `before` there; the harness never passes one); the top node of a typed copy
+   made through add_child gets the default kind (known finding D47, refuted full statement below).
 
    Vocabulary.
    [strip_ids ty t] : the branch t without node identities and without the
@@ -26,7 +64,7 @@
    [op_tree o] / [op_reads o] / [op_footprint o] : the tree an operation works on / reads its copy source
      from / both.   [same_on S w1 w2], [sim S x1 x2] : see the locality section. *)
 From Coq Require Import List ZArith Bool Arith Lia Permutation.
-From NT Require Import Sx Rose Surgery SurgeryFacts Machine WF MachineFacts Effects FrameTrees CopyFacts CopyMulti CopyWF CopyLocal CopySame.
+From NT Require Import Sx Rose Surgery SurgeryFacts Machine WF MachineFacts Effects FrameTrees CopyFacts CopyMulti CopyWF CopyLocal CopySame CopyClone CaseMut.
 From NTGen Require Import Generated.
 Import ListNotations.
 
@@ -284,6 +322,19 @@ Theorem C07_add_tree_block : forall b ch xs0,
 Proof. exact add_tree_block. Qed.
 Print Assumptions C07_add_tree_block.
 
+(* ---- inside ONE tree: the restricted independence (a same-tree copy is a clone of its source) ---- *)
+(* [local_op ti n o] : o is set_meta/clear_meta/update_meta, add_child(data), remove_children, remove() without
+   keep_children and without with_clones, a non-deep sort_children, set_data without with_clones=True or rename - on
+   node n of tree ti.  [outside f b n] : n is not in the branch b and b is not below n.
+   [still_there ti b w'] : b is a branch of tree ti of w' - the identical value (identities, payloads, metadata,
+   child order).  Whatever the outcome of the operation.  With b = the copy and n in the source branch, and
+   with b = the source branch and n in the copy: changes on one side do not reach the other. *)
+Theorem C07_same_tree_frame : forall w ti n t b,
+  get_tree w ti = Some t -> NoDup (ids (forest_of t)) -> In b (pre_f (forest_of t)) ->
+  outside (forest_of t) b n -> forall o, local_op ti n o -> still_there ti b (snd (step w o)).
+Proof. exact same_tree_frame. Qed.
+Print Assumptions C07_same_tree_frame.
+
 (* ---- Tree.copy / Node.copy keep the world well-formed (the C01-C03 invariant) ---- *)
 Theorem C07_tree_copy_WFw : forall w sti r w',
   WFw w -> 0 < next w -> op_tree_copy w sti = (Ok r, w') -> WFw w'.
@@ -294,6 +345,36 @@ Theorem C07_node_copy_WFw : forall w sti src add_self r w',
   WFw w -> 0 < next w -> op_node_copy w sti src add_self = (Ok r, w') -> WFw w'.
 Proof. exact node_copy_WFw. Qed.
 Print Assumptions C07_node_copy_WFw.
+
+(* the same without the redundant hypothesis (0 < next w is a clause of WFw) *)
+Theorem C07_tree_copy_WFw' : forall w sti r w', WFw w -> op_tree_copy w sti = (Ok r, w') -> WFw w'.
+Proof. exact tree_copy_WFw'. Qed.
+Print Assumptions C07_tree_copy_WFw'.
+
+Theorem C07_node_copy_WFw' : forall w sti src add_self r w',
+  WFw w -> op_node_copy w sti src add_self = (Ok r, w') -> WFw w'.
+Proof. exact node_copy_WFw'. Qed.
+Print Assumptions C07_node_copy_WFw'.
+
+(* fresh = in NO tree of the world before (reachable worlds satisfy WFw) *)
+Theorem C07_add_node_fresh_everywhere : forall w ti p sti src e k b deep r w', WFw w ->
+  op_add_node w ti p sti src e k b deep = (Ok r, w') ->
+  exists t' x, get_tree w' ti = Some t' /\ In x (pre_f (forest_of t')) /\ rid x = next w /\
+     forall m, In m (ids_t x) -> ~ In m (all_ids w).
+Proof. exact add_node_fresh_everywhere. Qed.
+Print Assumptions C07_add_node_fresh_everywhere.
+
+Theorem C07_tree_copy_fresh_everywhere : forall w sti r w', WFw w -> op_tree_copy w sti = (Ok r, w') ->
+  exists tc, nth_error (trees w') (length (trees w)) = Some tc /\
+             forall m, In m (ids (forest_of tc)) -> ~ In m (all_ids w).
+Proof. exact tree_copy_fresh_everywhere. Qed.
+Print Assumptions C07_tree_copy_fresh_everywhere.
+
+(* the correspondence runs [CaseMut.step_chk]: it is [step] whenever the references of the operation are live *)
+Theorem C07_step_chk_is_step : forall w o,
+  (op_live w o = true /\ step_chk w o = step w o) \/ (op_live w o = false /\ step_chk w o = (Err EModel, w)).
+Proof. exact step_chk_is_step. Qed.
+Print Assumptions C07_step_chk_is_step.
 
 (* ---- source unchanged / independent ---- *)
 
@@ -517,3 +598,55 @@ Example C07_add_tree_same_tree_nonvacuous :
     (exists e, fst (step w7 (OAddTree 0 3 0 BNone None)) = Err e) /\
     wf_world_b w7t = true.
 Proof. conjs; try (vm_compute; reflexivity). eexists. vm_compute. reflexivity. Qed.
+
+(* ---- a copy inside the tree of its source IS A CLONE of it (the library's clone semantics, not a defect) ---- *)
+(* w7s: branch 2 of tree 0 deep-copied below node 3 of the same tree; the copy's top node is 5 (same data_id as 2).
+   remove(with_clones=True) on the COPY removes the SOURCE node 2 as well; set_data(with_clones=True) on the copy
+   changes the source's data object.  The operations of [local_op] do not: C07_same_tree_frame. *)
+Definition f7s : forest := forest_of (nth 0 (trees w7s) dflt).
+Definition b2 : rt := match get_node 2 f7s with Some s => s | None => T 0 dummy_info [] end.
+Definition b5 : rt := match get_node 5 f7s with Some s => s | None => T 0 dummy_info [] end.
+Example C07_same_tree_copy_is_a_clone :
+    rdid b5 = rdid b2 /\ i_obj (rinfo b5) = i_obj (rinfo b2) /\
+    fst (step w7s (ORemove 0 5 false true)) = Ok [] /\
+    get_node 2 f7s <> None /\
+    get_node 2 (forest_of (nth 0 (trees (snd (step w7s (ORemove 0 5 false true)))) dflt)) = None /\
+    fst (step w7s (OSetData 0 5 (Some dA) (Some (DStr [88%Z])) (Some true))) = Ok [] /\
+    option_map (fun x => i_obj (rinfo x))
+      (get_node 2 (forest_of (nth 0 (trees (snd (step w7s (OSetData 0 5 (Some dA) (Some (DStr [88%Z])) (Some true))))) dflt))) = Some 1%Z /\
+    i_obj (rinfo b2) = 2%Z.
+Proof. conjs; try (vm_compute; reflexivity). vm_compute. discriminate. Qed.
+
+(* ... while operations that do not name clones, on the copy (node 5 / its child 6), leave the source branch identical,
+   and on the source (node 2 / 4) leave the copy identical: the hypotheses of C07_same_tree_frame are satisfiable *)
+Example C07_same_tree_frame_nonvacuous :
+    In b2 (pre_f f7s) /\ In b5 (pre_f f7s) /\ NoDup (ids f7s) /\
+    (~ In 5 (ids_t b2) /\ ~ In 6 (ids_t b2) /\ ~ In 2 (ids_t b5) /\ ~ In 4 (ids_t b5)) /\
+    (let w' := run [OMeta 0 5 (MSet [109%Z] (Some (A 3%Z))); ORemove 0 6 false false; OAdd 0 5 dA None k1 BTrue;
+                    OSetData 0 5 (Some dA) None (Some false)] w7s in
+     get_node 2 (forest_of (nth 0 (trees w') dflt)) = Some b2 /\ get_node 5 (forest_of (nth 0 (trees w') dflt)) <> Some b5) /\
+    (let w' := run [OMeta 0 2 (MClear None); ORemoveChildren 0 2; OSort 0 2 [] true false] w7s in
+     get_node 5 (forest_of (nth 0 (trees w') dflt)) = Some b5 /\ get_node 2 (forest_of (nth 0 (trees w') dflt)) <> Some b2).
+Proof.
+  split; [vm_compute; tauto|]. split; [vm_compute; tauto|].
+  split; [apply (nodupb_NoDup Nat.eqb Nat.eqb_eq); vm_compute; reflexivity|].
+  split; [vm_compute; intuition discriminate|].
+  split; (split; [vm_compute; reflexivity|vm_compute; discriminate]).
+Qed.
+
+(* Node.copy(add_self) and a cross-tree copy_to(add_self=False) *)
+Definition b2' : rt := match get_node 2 src7 with Some s => s | None => T 0 dummy_info [] end.
+Definition w7n : world := snd (step w7 (ONodeCopy 0 1 true)).
+Definition w7m : world := snd (step w7 (OCopyTo 0 1 1 0 false BNone true)).
+Example C07_node_copy_nonvacuous :
+    fst (step w7 (ONodeCopy 0 1 true)) = Ok [2] /\ ids (forest_of (nth 2 (trees w7n) dflt)) = [5; 6; 7] /\
+    map i_kind (infos_f (forest_of (nth 2 (trees w7n) dflt))) = [Some [99; 104; 105; 108; 100]%Z; k2; k1] /\
+    fst (step w7 (ONodeCopy 0 1 false)) = Ok [2] /\
+    map i_kind (infos_f (forest_of (nth 2 (trees (snd (step w7 (ONodeCopy 0 1 false)))) dflt))) = [k2; k1] /\
+    fst (step w7 (OCopyTo 0 1 1 0 false BNone true)) = Ok [5] /\
+    ids (forest_of (nth 1 (trees w7m) dflt)) = [5; 6] /\ get_tree w7m 0 = get_tree w7 0 /\
+    src_ok src7 (forest_of (nth 0 (trees w7k) dflt)) 3 2.
+Proof.
+  conjs; try (vm_compute; reflexivity).
+  exists b2', b2'. unfold b2'. repeat split; try (vm_compute; reflexivity).
+Qed.
